@@ -303,7 +303,7 @@ def do_check(pid, tier):
             known_hits.append((key, known[(pid, key)], len(vs)))
             continue
         safe = re.sub(r"[^A-Za-z0-9_.-]+", "_", key)[:80]
-        path = os.path.join(VERIF, "replays", pid, "%s.json" % safe)
+        path = os.path.join(workdir if os.environ.get("VERIF_NO_EVIDENCE") else os.path.join(VERIF, "replays", pid), "%s.json" % safe)
         json.dump(rec, open(path, "w"), indent=1)
         new_findings.append((key, path, len(vs), v))
 
@@ -334,7 +334,8 @@ def do_check(pid, tier):
     ev = {"property_id": pid, "tier": tier, "seed": seed, "level": level, "coverage": cov,
           "assumptions": P.get("assumptions", []), "wall_s": round(wall, 2),
           "violations": len(new_findings)}
-    json.dump(ev, open(os.path.join(VERIF, "evidence", "%s.json" % pid), "w"), indent=1)
+    if not os.environ.get("VERIF_NO_EVIDENCE"):
+        json.dump(ev, open(os.path.join(VERIF, "evidence", "%s.json" % pid), "w"), indent=1)
 
     log("%s %s: cases=%d executed=%d evaluations=%d distinct_outcomes=%d nontrivial=%d crashes=%d wall=%.1fs%s" %
         (pid, tier, tot["cases_total"], tot["executed"], evals, distinct_outcomes, cov["distinct_nontrivial"],
